@@ -229,6 +229,15 @@ for _sfx in ("", "_async"):
         include_node_contract("C14", _sfx, _b, lambda: REPLAY_SCOPE)
 
 
+# resolving a path with a nested variable never freezes the nested value into the parsed path
+from contracts.C19 import _children_complete, _expr_classes  # noqa: E402
+
+for _m, _cn, _init in _expr_classes():
+    if _cn == "Path":
+        for _sfx in ("", "_async"):
+            _children_complete(_m, _cn, _init, _sfx, prop="C14", what="frame")
+
+
 not_covered("C14", "parsing of path syntax into segments (Path.parse)", "chain lengths above 5 for the ReadOnlyChainMap lookup loop (uniform in the length)",
             "that AssignNode/CaptureNode call context.assign is a structural call-site obligation ('binding-call-sites'); that include renders in the caller's own context inside a block scope holding its arguments is proved on IncludeNode.render_to_output*")
 
